@@ -6,6 +6,7 @@ CONSTANTS
   Nesting = FALSE
   TaskAllow = TRUE
   AtomicLaunch = TRUE
+  CondErr = FALSE
   ErrFirst = TRUE
   HookKinds = {"none", "ok", "fail"}
 SPECIFICATION Spec
